@@ -181,24 +181,26 @@ fn ann(ty: &str, pairs: Vec<(&str, SElementValue)>) -> SAnnotation {
 	SAnnotation { type_name: js(ty), pairs: pairs.into_iter().map(|(n, v)| (js(n), v)).collect() }
 }
 
-fn desc_of(i: usize) -> String {
-	format!("L{};", CLS[i])
+fn desc_of(u: &Uni, i: usize) -> String {
+	format!("L{};", u.cls[i])
 }
 
 /// Class `i` of the jar. It refers to every class of the universe as super class / interface, in
 /// field and method descriptors, in `new`, `invokespecial` and `getfield` operands, and to two
 /// further classes (rotating) at the remaining instruction, constant and annotation positions.
-pub fn fixture_class(i: usize, variant: Option<usize>) -> SClass {
-	let n = CLS.len();
-	let mut c = skeleton(CLS[i]);
+pub fn fixture_class(u: &Uni, i: usize, variant: Option<usize>) -> SClass {
+	let n = 6;
+	let cls = &u.cls;
+	let desc_of = |i: usize| desc_of(u, i);
+	let mut c = skeleton(cls[i]);
 	c.version = [(55, 0), (61, 0), (52, 0), (61, 0)][i];
-	c.super_class = Some(js(if i == 0 { "java/lang/Object" } else { CLS[i - 1] }));
-	c.interfaces = vec![js(CLS[(i + 2) % n]), js(CLS[5 - i % 2])];
-	c.source_file = Some(js(&format!("{}.java", SIMPLE[i])));
+	c.super_class = Some(js(if i == 0 { "java/lang/Object" } else { cls[i - 1] }));
+	c.interfaces = vec![js(cls[(i + 2) % n]), js(cls[5 - i % 2])];
+	c.source_file = Some(js(&format!("{}.java", u.simple(i))));
 	// the marker by which the check recognises the class after renaming
-	c.fields.push(SField { access: 0x0019, name: js(&format!("id_{}", SIMPLE[i])), desc: js("I"), constant_value: Some(SConst::Int(i as i32)), ..Default::default() });
+	c.fields.push(SField { access: 0x0019, name: js(&format!("id_{}", LETTER[i])), desc: js("I"), constant_value: Some(SConst::Int(i as i32)), ..Default::default() });
 	for y in 0..n {
-		c.fields.push(SField { access: 0x0002, name: js(&format!("f{}", SIMPLE[y])), desc: js(&desc_of(y)), ..Default::default() });
+		c.fields.push(SField { access: 0x0002, name: js(&format!("f{}", LETTER[y])), desc: js(&desc_of(y)), ..Default::default() });
 	}
 	c.fields.push(SField { access: 0x0008, name: js("arr"), desc: js(&format!("[[{}", desc_of((i + 1) % n))), ..Default::default() });
 	let a = (i + 1) % n;
@@ -221,34 +223,34 @@ pub fn fixture_class(i: usize, variant: Option<usize>) -> SClass {
 	// new / invokespecial / getfield on three classes per host (every class of the universe on two hosts)
 	for y in [i, (i + 2) % n, (i + 3) % n] {
 		let z = (y + 1) % n;
-		insns.push(SInsn::New(js(CLS[y])));
-		insns.push(SInsn::Invoke(op::INVOKESPECIAL, mref(CLS[y], "<init>", "()V"), false));
-		insns.push(SInsn::Field(op::GETFIELD, mref(CLS[y], &format!("f{}", SIMPLE[z]), &desc_of(z))));
+		insns.push(SInsn::New(js(cls[y])));
+		insns.push(SInsn::Invoke(op::INVOKESPECIAL, mref(cls[y], "<init>", "()V"), false));
+		insns.push(SInsn::Field(op::GETFIELD, mref(cls[y], &format!("f{}", LETTER[z]), &desc_of(z))));
 	}
 	// every other operand position, for one or two classes per host (all six classes over the four hosts)
 	let full: &[usize] = [&[1usize, 4][..], &[2, 5], &[3], &[0]][i];
 	for &y in full {
 		let z = (y + 2) % n;
-		insns.push(SInsn::Invoke(op::INVOKEVIRTUAL, mref(CLS[y], M_PRESENT.0, M_PRESENT.1), false));
-		insns.push(SInsn::Invoke(op::INVOKESTATIC, mref(CLS[y], "s", &format!("({}[{})V", desc_of(z), desc_of(y))), false));
-		insns.push(SInsn::Invoke(op::INVOKEINTERFACE, mref(CLS[z], "i", &format!("(){}", desc_of(y))), true));
+		insns.push(SInsn::Invoke(op::INVOKEVIRTUAL, mref(cls[y], &u.m_present.0, &u.m_present.1), false));
+		insns.push(SInsn::Invoke(op::INVOKESTATIC, mref(cls[y], "s", &format!("({}[{})V", desc_of(z), desc_of(y))), false));
+		insns.push(SInsn::Invoke(op::INVOKEINTERFACE, mref(cls[z], "i", &format!("(){}", desc_of(y))), true));
 		insns.push(SInsn::Invoke(op::INVOKEVIRTUAL, mref(&format!("[{}", desc_of(y)), "clone", "()Ljava/lang/Object;"), false));
-		insns.push(SInsn::Field(op::PUTSTATIC, mref(CLS[y], "arr", &format!("[[{}", desc_of(z)))));
-		insns.push(SInsn::CheckCast(js(CLS[y])));
+		insns.push(SInsn::Field(op::PUTSTATIC, mref(cls[y], "arr", &format!("[[{}", desc_of(z)))));
+		insns.push(SInsn::CheckCast(js(cls[y])));
 		insns.push(SInsn::InstanceOf(js(&format!("[{}", desc_of(y)))));
-		insns.push(SInsn::ANewArray(js(CLS[y])));
+		insns.push(SInsn::ANewArray(js(cls[y])));
 		insns.push(SInsn::MultiANewArray(js(&format!("[[{}", desc_of(y))), 2));
-		insns.push(SInsn::Ldc(SConst::Class(js(CLS[y]))));
+		insns.push(SInsn::Ldc(SConst::Class(js(cls[y]))));
 		insns.push(SInsn::Ldc(SConst::MethodType(js(&format!("({}){}", desc_of(y), desc_of(z))))));
-		insns.push(SInsn::Ldc(SConst::Handle(SHandle { kind: 6, member: mref(CLS[y], "s", &format!("({})V", desc_of(z))), interface: false })));
+		insns.push(SInsn::Ldc(SConst::Handle(SHandle { kind: 6, member: mref(cls[y], "s", &format!("({})V", desc_of(z))), interface: false })));
 	}
 	insns.push(SInsn::Simple(0x01)); // aconst_null
 	insns.push(SInsn::Simple(0xb0)); // areturn
 	let len = insns.len() as Idx;
-	let mut m = method_with(M_PRESENT.0, M_PRESENT.1, insns);
+	let mut m = method_with(&u.m_present.0, &u.m_present.1, insns);
 	m.access = 0x0001;
 	if let Some(code) = &mut m.code {
-		code.exceptions = vec![SExceptionEntry { start: 0, end: 3, handler: len - 2, catch: Some(js(CLS[a])) }, SExceptionEntry { start: 3, end: 6, handler: len - 2, catch: None }];
+		code.exceptions = vec![SExceptionEntry { start: 0, end: 3, handler: len - 2, catch: Some(js(cls[a])) }, SExceptionEntry { start: 3, end: 6, handler: len - 2, catch: None }];
 		code.line_numbers = vec![(0, 10), (3, 11)];
 		code.local_vars = vec![
 			SLocalVar { start: 0, end: len, name: js("this"), ty: js(&desc_of(i)), index: 0 },
@@ -256,7 +258,7 @@ pub fn fixture_class(i: usize, variant: Option<usize>) -> SClass {
 		];
 		code.local_vars.sort();
 	}
-	m.exceptions = Some(vec![js(CLS[b]), js("java/lang/Exception")]);
+	m.exceptions = Some(vec![js(cls[b]), js("java/lang/Exception")]);
 	m.annotations.invisible = vec![ann(&desc_of(b), vec![("e", SElementValue::Enum { type_name: js(&desc_of(b)), const_name: js("V") })])];
 	m.parameters = Some(vec![(Some(js("p0")), 0x0010), (None, 0)]);
 	c.methods.push(m);
@@ -271,17 +273,17 @@ pub fn fixture_class(i: usize, variant: Option<usize>) -> SClass {
 			// a class that already has an InnerClasses attribute and a nest
 			c.inner_classes = Some(vec![
 				SInnerClass { inner: js("p/A$Pre"), outer: Some(js("p/A")), name: Some(js("Pre")), flags: 0x0008 },
-				SInnerClass { inner: js(CLS[3]), outer: None, name: None, flags: 0 },
+				SInnerClass { inner: js(cls[3]), outer: None, name: None, flags: 0 },
 			]);
-			c.nest_members = Some(vec![js(CLS[1]), js(CLS[4])]);
+			c.nest_members = Some(vec![js(cls[1]), js(cls[4])]);
 		},
-		1 => c.nest_host = Some(js(CLS[0])),
+		1 => c.nest_host = Some(js(cls[0])),
 		2 => {},
-		_ => c.permitted_subclasses = Some(vec![js(CLS[2]), js(CLS[5])]),
+		_ => c.permitted_subclasses = Some(vec![js(cls[2]), js(cls[5])]),
 	}
 	if let Some(v) = variant {
-		leftovers(&mut c, i, v);
-		more_positions(&mut c, i, v);
+		leftovers(u, &mut c, i, v);
+		more_positions(u, &mut c, i, v);
 	}
 	cfmodel::gen::normalize(&mut c);
 	c
@@ -301,21 +303,22 @@ pub const VARIANTS: usize = 4;
 ///  3: no EnclosingMethod; an InnerClasses entry for the class itself that says exactly what the table entry
 ///     "member class of the next jar class, derived inner name" says.
 /// Tables that name the same class and method as the leftover EnclosingMethod occur in the table space as well.
-pub fn leftovers(c: &mut SClass, i: usize, v: usize) {
-	let next = CLS[(i + 1) % N_PRESENT];
-	let own = |outer: Option<&str>, name: Option<&str>, flags: u16| SInnerClass { inner: js(CLS[i]), outer: outer.map(js), name: name.map(js), flags };
+pub fn leftovers(u: &Uni, c: &mut SClass, i: usize, v: usize) {
+	let cls = &u.cls;
+	let next = cls[(i + 1) % N_PRESENT];
+	let own = |outer: Option<&str>, name: Option<&str>, flags: u16| SInnerClass { inner: js(cls[i]), outer: outer.map(js), name: name.map(js), flags };
 	let ic = c.inner_classes.get_or_insert_with(Vec::new);
 	match (i + v) % 4 {
-		0 => c.enclosing_method = Some((js(next), Some((js(M_PRESENT.0), js(M_PRESENT.1))))),
+		0 => c.enclosing_method = Some((js(next), Some((js(&u.m_present.0), js(&u.m_present.1))))),
 		1 => {
-			c.enclosing_method = Some((js(CLS[(i + 2) % N_PRESENT]), None));
+			c.enclosing_method = Some((js(cls[(i + 2) % N_PRESENT]), None));
 			ic.push(own(Some(next), Some("Old"), 0x0001));
 		},
 		2 => {
-			c.enclosing_method = Some((js(CLS[4]), Some((js("n"), js("()V")))));
+			c.enclosing_method = Some((js(cls[4]), Some((js("n"), js("()V")))));
 			ic.push(own(None, None, 0));
 		},
-		_ => ic.push(own(Some(next), Some(SIMPLE[i]), FLAGS[i])),
+		_ => ic.push(own(Some(next), Some(u.simple(i)), u.flags[i])),
 	}
 	if c.inner_classes.as_ref().is_some_and(|v| v.is_empty()) {
 		c.inner_classes = None;
@@ -325,19 +328,20 @@ pub fn leftovers(c: &mut SClass, i: usize, v: usize) {
 /// Variant jars also refer to classes at the positions the base jar does not have: getstatic/putfield, every kind
 /// of method handle, invokedynamic (bootstrap handle, static arguments, descriptor), a dynamic constant, and type
 /// annotations on the class, a field, a method and inside code.
-pub fn more_positions(c: &mut SClass, i: usize, v: usize) {
-	let n = CLS.len();
+pub fn more_positions(u: &Uni, c: &mut SClass, i: usize, v: usize) {
+	let n = 6;
+	let cls = &u.cls;
 	let y = (i + v + 1) % n;
 	let z = (y + 3) % n;
-	let (dy, dz) = (desc_of(y), desc_of(z));
-	let h = |kind: u8, name: &str, desc: &str, interface: bool| SHandle { kind, member: mref(CLS[y], name, desc), interface };
+	let (dy, dz) = (desc_of(u, y), desc_of(u, z));
+	let h = |kind: u8, name: &str, desc: &str, interface: bool| SHandle { kind, member: mref(cls[y], name, desc), interface };
 	let boot = SBootstrap {
 		handle: h(6, "bsm", &format!("(Ljava/lang/invoke/MethodHandles$Lookup;Ljava/lang/String;Ljava/lang/invoke/MethodType;{dz})Ljava/lang/invoke/CallSite;"), false),
-		args: vec![SConst::Class(js(CLS[y])), SConst::MethodType(js(&format!("({dy}){dz}"))), SConst::Handle(h(8, "<init>", &format!("({dz})V"), false)), SConst::Str(js(CLS[y])), SConst::Class(js(&format!("[{dz}")))],
+		args: vec![SConst::Class(js(cls[y])), SConst::MethodType(js(&format!("({dy}){dz}"))), SConst::Handle(h(8, "<init>", &format!("({dz})V"), false)), SConst::Str(js(cls[y])), SConst::Class(js(&format!("[{dz}")))],
 	};
 	let mut insns = vec![
-		SInsn::Field(op::GETSTATIC, mref(CLS[y], "sf", &dz)),
-		SInsn::Field(op::PUTFIELD, mref(CLS[z], "pf", &format!("[{dy}"))),
+		SInsn::Field(op::GETSTATIC, mref(cls[y], "sf", &dz)),
+		SInsn::Field(op::PUTFIELD, mref(cls[z], "pf", &format!("[{dy}"))),
 		SInsn::Ldc(SConst::Handle(h(1, "hf", &dz, false))),
 		SInsn::Ldc(SConst::Handle(h(2, "hs", &format!("[{dz}"), false))),
 		SInsn::Ldc(SConst::Handle(h(3, "hf", &dy, false))),
@@ -347,10 +351,10 @@ pub fn more_positions(c: &mut SClass, i: usize, v: usize) {
 		SInsn::Ldc(SConst::Handle(h(7, "hp", &format!("(){dy}"), true))),
 		SInsn::Ldc(SConst::Handle(h(9, "hi", &format!("({dy}{dz})V"), true))),
 		SInsn::InvokeDynamic(SDynamic { bootstrap: boot.clone(), name: js("run"), desc: js(&format!("({dy}[{dz}){dz}")) }),
-		SInsn::New(js(CLS[z])),
+		SInsn::New(js(cls[z])),
 	];
 	if c.version.0 >= 55 {
-		insns.push(SInsn::Ldc(SConst::Dynamic(Box::new(SDynamic { bootstrap: SBootstrap { handle: h(6, "cbsm", &format!("(Ljava/lang/invoke/MethodHandles$Lookup;Ljava/lang/String;Ljava/lang/Class;){dy}"), false), args: vec![SConst::Class(js(CLS[z]))] }, name: js("k"), desc: js(&dy) }))));
+		insns.push(SInsn::Ldc(SConst::Dynamic(Box::new(SDynamic { bootstrap: SBootstrap { handle: h(6, "cbsm", &format!("(Ljava/lang/invoke/MethodHandles$Lookup;Ljava/lang/String;Ljava/lang/Class;){dy}"), false), args: vec![SConst::Class(js(cls[z]))] }, name: js("k"), desc: js(&dy) }))));
 	}
 	insns.push(SInsn::Simple(op::RETURN));
 	let len = insns.len() as Idx;
@@ -368,8 +372,11 @@ pub fn more_positions(c: &mut SClass, i: usize, v: usize) {
 }
 
 pub struct Fixture {
+	pub uni: &'static Uni,
 	/// `None`: the base jar; `Some(v)`: variant jar `v`
 	pub variant: Option<usize>,
+	/// the order of the class entries in the jar (indices into the universe)
+	pub order: [usize; 4],
 	pub models: Vec<SClass>,
 	pub jar: ParsedJar<ClassRepr, Vec<u8>>,
 	/// class name → declared (name, descriptor) pairs
@@ -392,7 +399,12 @@ impl Fixture {
 
 	/// the base jar (`None`) or one of the `VARIANTS` variant jars
 	pub fn build(variant: Option<usize>) -> Fixture {
-		let models: Vec<SClass> = (0..N_PRESENT).map(|i| fixture_class(i, variant)).collect();
+		Fixture::build_in(base(), variant, [2, 0, 3, 1])
+	}
+
+	/// the jar of a universe, with the class entries in the given order (the base order is not the universe order)
+	pub fn build_in(uni: &'static Uni, variant: Option<usize>, order: [usize; 4]) -> Fixture {
+		let models: Vec<SClass> = (0..N_PRESENT).map(|i| fixture_class(uni, i, variant)).collect();
 		let mut bytes = Vec::new();
 		let mut methods = BTreeMap::new();
 		for m in &models {
@@ -412,7 +424,17 @@ impl Fixture {
 			methods.insert(m.this_class.to_string_lossy(), m.methods.iter().map(|x| (x.name.to_string_lossy(), x.desc.to_string_lossy())).collect());
 			bytes.push(b);
 		}
-		let others = vec![("META-INF/".to_owned(), None), ("META-INF/MANIFEST.MF".to_owned(), Some(b"Manifest-Version: 1.0\r\n\r\n".to_vec())), ("p/".to_owned(), None), ("p/B.txt".to_owned(), Some(b"p/B is mentioned here".to_vec()))];
+		let mut others = vec![("META-INF/".to_owned(), None), ("META-INF/MANIFEST.MF".to_owned(), Some(b"Manifest-Version: 1.0\r\n\r\n".to_vec())), ("p/".to_owned(), None), ("p/B.txt".to_owned(), Some(b"p/B is mentioned here".to_vec()))];
+		if !uni.is_base() {
+			// entries that are not classes, with 2-, 3- and 4-byte characters at every distance 1..=8 from the end of the name
+			for (k, ch) in ["\u{e9}", "\u{20ac}", "\u{1f600}"].iter().enumerate() {
+				for tail in 0..=7usize {
+					others.push((format!("r{k}/{ch}{}", &".txtclas"[..tail]), Some(format!("resource {k} {tail}").into_bytes())));
+				}
+			}
+			others.push(("\u{20ac}".to_owned(), Some(Vec::new())));
+			others.push(("\u{3c0}/".to_owned(), None));
+		}
 		let mut jar = ParsedJar { entries: indexmap::IndexMap::new() };
 		let put = |jar: &mut ParsedJar<ClassRepr, Vec<u8>>, name: &str, content| {
 			jar.entries.insert(name.to_owned(), ParsedJarEntry { attr: BasicFileAttributes::default(), content });
@@ -420,13 +442,13 @@ impl Fixture {
 		for (name, data) in &others[..3] {
 			put(&mut jar, name, match data { None => JarEntryEnum::Dir, Some(d) => JarEntryEnum::Other(d.clone()) });
 		}
-		// classes in an order that is not the universe order
-		for i in [2usize, 0, 3, 1] {
-			put(&mut jar, &format!("{}.class", CLS[i]), JarEntryEnum::Class(ClassRepr::Vec { data: bytes[i].clone() }));
+		for i in order {
+			put(&mut jar, &format!("{}.class", uni.cls[i]), JarEntryEnum::Class(ClassRepr::Vec { data: bytes[i].clone() }));
 		}
-		let (name, data) = &others[3];
-		put(&mut jar, name, JarEntryEnum::Other(data.clone().unwrap_or_default()));
-		Fixture { variant, models, jar, methods, others }
+		for (name, data) in &others[3..] {
+			put(&mut jar, name, match data { None => JarEntryEnum::Dir, Some(d) => JarEntryEnum::Other(d.clone()) });
+		}
+		Fixture { uni, variant, order, models, jar, methods, others }
 	}
 
 	pub fn present(&self, class: &str) -> bool {
@@ -475,7 +497,7 @@ pub struct Out {
 const CACHE_CAP: usize = 4096;
 thread_local! {
 	static PARSE_CACHE: RefCell<HashMap<Vec<u8>, Result<Arc<SClass>, String>>> = RefCell::new(HashMap::new());
-	static RENAME_CACHE: RefCell<HashMap<(Option<usize>, usize, Vec<(String, String)>), Arc<SClass>>> = RefCell::new(HashMap::new());
+	static RENAME_CACHE: RefCell<HashMap<(&'static str, Option<usize>, usize, Vec<(String, String)>), Arc<SClass>>> = RefCell::new(HashMap::new());
 }
 
 fn parse_cached(bytes: &[u8]) -> Result<Arc<SClass>, String> {
@@ -497,7 +519,7 @@ fn parse_cached(bytes: &[u8]) -> Result<Arc<SClass>, String> {
 pub fn renamed_fixture(fx: &Fixture, i: usize, m: &Map) -> Arc<SClass> {
 	RENAME_CACHE.with(|c| {
 		let mut c = c.borrow_mut();
-		let key = (fx.variant, i, m.iter().map(|(a, b)| (a.clone(), b.clone())).collect::<Vec<_>>());
+		let key = (fx.uni.id, fx.variant, i, m.iter().map(|(a, b)| (a.clone(), b.clone())).collect::<Vec<_>>());
 		if let Some(r) = c.get(&key) {
 			return r.clone();
 		}
@@ -510,11 +532,11 @@ pub fn renamed_fixture(fx: &Fixture, i: usize, m: &Map) -> Arc<SClass> {
 	})
 }
 
-fn origin_of(c: &SClass) -> Option<String> {
-	c.fields.iter().find_map(|f| f.name.to_string_lossy().strip_prefix("id_").map(|s| format!("p/{s}")))
+fn origin_of(u: &Uni, c: &SClass) -> Option<String> {
+	c.fields.iter().find_map(|f| f.name.to_string_lossy().strip_prefix("id_").and_then(|s| LETTER.iter().position(|l| *l == s)).map(|i| u.cls[i].to_owned()))
 }
 
-pub fn read_out(jar: &ParsedJar<ClassRepr, Vec<u8>>) -> Out {
+pub fn read_out(u: &Uni, jar: &ParsedJar<ClassRepr, Vec<u8>>) -> Out {
 	let mut out = Out::default();
 	for (name, e) in &jar.entries {
 		match &e.content {
@@ -524,7 +546,7 @@ pub fn read_out(jar: &ParsedJar<ClassRepr, Vec<u8>>) -> Out {
 				Err(e) => out.broken.push((name.clone(), "nest_jar:output-class-not-writable".into(), format!("{e:#}"))),
 				Ok(bytes) => match parse_cached(bytes.as_ref()) {
 					Err(e) => out.broken.push((name.clone(), "nest_jar:output-class-malformed".into(), format!("{e} — {}", vcore::hex(bytes.as_ref())))),
-					Ok(p) => out.classes.push(OutClass { entry: name.clone(), origin: origin_of(&p), class: p }),
+					Ok(p) => out.classes.push(OutClass { entry: name.clone(), origin: origin_of(u, &p), class: p }),
 				},
 			},
 		}
@@ -533,7 +555,7 @@ pub fn read_out(jar: &ParsedJar<ClassRepr, Vec<u8>>) -> Out {
 }
 
 /// reads a zip archive the same way (every `.class` entry is a class)
-pub fn read_out_zip(data: &[u8]) -> Result<Out, String> {
+pub fn read_out_zip(u: &Uni, data: &[u8]) -> Result<Out, String> {
 	use std::io::Read;
 	let mut z = zip::ZipArchive::new(std::io::Cursor::new(data)).map_err(|e| format!("zip: {e}"))?;
 	let mut out = Out::default();
@@ -549,7 +571,7 @@ pub fn read_out_zip(data: &[u8]) -> Result<Out, String> {
 		if name.ends_with(".class") {
 			match parse_cached(&bytes) {
 				Err(e) => out.broken.push((name, "nest_jar:output-class-malformed".into(), e)),
-				Ok(p) => out.classes.push(OutClass { entry: name, origin: origin_of(&p), class: p }),
+				Ok(p) => out.classes.push(OutClass { entry: name, origin: origin_of(u, &p), class: p }),
 			}
 		} else {
 			out.others.push((name, Some(bytes)));
